@@ -1139,9 +1139,12 @@ class Exec:
 
     def ev_SetComp(self, node, st):
         out = []
-        for s2, v in self.comprehension(node, st, list):
-            if isinstance(v, list):
-                # a concrete set of known small integers (outside the set-level mode)
+        # symbolic collections: desugared with a SET accumulator (set-level summary of `acc.add(x)`); concretely sized ones:
+        # the items are collected in a list and turned into a concrete set of known small integers
+        for s2, v in self.comprehension(node, st, set):
+            if isinstance(v, (set, frozenset)):
+                v = self.lib.call_builtin(self, s2, "set", [list(v)], {}, node)
+            elif isinstance(v, list):
                 v = self.lib.call_builtin(self, s2, "set", [v], {}, node)
             out.append((s2, v))
         return out
